@@ -423,6 +423,11 @@ func checkAuthorize(g *goPartial) authResult {
 					if !hasName(s.assigned, exprString(x.Results[0])) && s.sawErr {
 						viol = g.site(x.Pos()) + ": refusal path returns a value that does not carry the callback's error"
 					}
+					// a variable that was not given the callback's error on this path may still hold
+					// nil - and nil is the approval
+					if id, isVar := x.Results[0].(*ast.Ident); isVar && !hasName(s.assigned, id.Name) && viol == "" {
+						viol = g.site(x.Pos()) + ": authorize returns the variable `" + id.Name + "` from inside the loop over security lists on a path on which no refusal was stored in it: when nothing was refused yet it is nil, i.e. the request is approved without its checks having been evaluated"
+					}
 					return
 				}
 			}
